@@ -351,6 +351,79 @@ with overflow checks. Outcome must be ok/err; `load` outcomes are also compared 
             cases.push(("objstm-systematic".into(), format!("O D3 {} N{} {} i{} {} i{} ; {}", hex(b"Type"), hex(b"ObjStm"), hex(b"First"), fi, hex(b"N"), n, hex_tok(ct)), c.cur));
         } } }
     }
+    // ENCRYPTED files with a damaged security handler: `Document::load_mem` authenticates the empty password and decrypts every
+    // string and stream while loading, so the Encrypt dictionary and the ciphertexts are untrusted bytes like any others.
+    // Base: documents lopdf itself encrypted (every version, EMPTY user password, so that loading goes all the way through
+    // decryption); then ONE field of the Encrypt dictionary / its crypt filters / the file identifier / one ciphertext is set to a
+    // systematic list of values (and Length x V x R as a full product): key lengths 0, not a multiple of 8, beyond the cipher's
+    // range; missing, truncated, over-long, wrongly typed O / U / OE / UE / Perms; unknown or missing CFM; ciphertexts shorter
+    // than an IV or not a multiple of the block size.
+    {
+        use super::c05;
+        use lopdf::{Dictionary, Document, Object, StringFormat};
+        let vers = [c05::Ver::V1, c05::Ver::V2(40), c05::Ver::V2(128), c05::Ver::V4, c05::Ver::V4, c05::Ver::R5, c05::Ver::V5];
+        let ints: [i64; 15] = [0, 1, 5, 8, 16, 24, 32, 40, 41, 64, 128, 136, 256, -8, 1 << 40];
+        let lens: [usize; 10] = [0, 1, 15, 16, 17, 31, 32, 33, 47, 48];
+        let mut k = 0u64;
+        for (vi, ver) in vers.iter().enumerate() {
+            let Some(mut r) = c.case("encdict-base", vi as u64) else { continue };
+            let opts = c05::GenOpts { stream_dict_strings: true, nested_streams: false, meta_dicts: false, bad_length: false };
+            let mut doc = c05::gen_doc(&mut r, &opts);
+            let mut cfg = c05::gen_config(&mut r, Some(ver.clone()));
+            cfg.user = String::new();
+            let Ok(state) = cfg.make_state(&doc) else { c.count("encdict.mkstate_failed"); continue };
+            if doc.encrypt(&state).is_err() { c.count("encdict.encrypt_failed"); continue }
+            let enc_id = match doc.trailer.get(b"Encrypt") { Ok(Object::Reference(id)) => Some(*id), _ => None };
+            let get_enc = |d: &Document| -> Dictionary { match enc_id { Some(id) => d.objects.get(&id).and_then(|o| o.as_dict().ok()).cloned().unwrap_or_default(),
+                None => d.trailer.get(b"Encrypt").ok().and_then(|o| o.as_dict().ok()).cloned().unwrap_or_default() } };
+            let put_enc = |d: &mut Document, e: Dictionary| { match enc_id { Some(id) => { d.objects.insert(id, Object::Dictionary(e)); } None => d.trailer.set("Encrypt", Object::Dictionary(e)) } };
+            let base_enc = get_enc(&doc);
+            let mut variants: Vec<(String, Document)> = vec![("base".into(), doc.clone())];
+            let mut add = |name: String, f: &dyn Fn(&mut Dictionary, &mut Document)| { let mut d = doc.clone(); let mut e = base_enc.clone(); f(&mut e, &mut d); put_enc(&mut d, e); variants.push((name, d)); };
+            for key in ["Length", "V", "R", "P"] { for v in ints { add(format!("{}={}", key, v), &|e, _| e.set(key, Object::Integer(v))); } }
+            for key in ["Length", "V", "R", "P", "O", "U", "OE", "UE", "Perms", "Filter", "CF", "StmF", "StrF", "EncryptMetadata"] {
+                add(format!("-{}", key), &|e, _| { e.remove(key.as_bytes()); });
+                add(format!("{}:int", key), &|e, _| e.set(key, Object::Integer(7)));
+                add(format!("{}:name", key), &|e, _| e.set(key, Object::Name(b"Nope".to_vec())));
+            }
+            for key in ["O", "U", "OE", "UE", "Perms"] { for l in lens {
+                add(format!("{}.len={}", key, l), &|e, _| { let cur = e.get(key.as_bytes()).ok().and_then(|o| o.as_str().ok()).map(|b| b.to_vec()).unwrap_or_default();
+                    let mut b = cur; b.resize(l, 0x5a); e.set(key, Object::String(b, StringFormat::Hexadecimal)); });
+            } }
+            let cf_names: Vec<Vec<u8>> = base_enc.get(b"CF").ok().and_then(|o| o.as_dict().ok()).map(|d| d.iter().map(|(k, _)| k.clone()).collect()).unwrap_or_default();
+            for n in &cf_names {
+                for cfm in ["V2", "AESV2", "AESV3", "None", "Identity", "Foo"] {
+                    add(format!("CF.{}.CFM={}", String::from_utf8_lossy(n), cfm), &|e, _| { if let Ok(Object::Dictionary(cf)) = e.get_mut(b"CF") { if let Ok(Object::Dictionary(f)) = cf.get_mut(n) { f.set("CFM", Object::Name(cfm.as_bytes().to_vec())); } } });
+                }
+                for v in ints { add(format!("CF.{}.Length={}", String::from_utf8_lossy(n), v), &|e, _| { if let Ok(Object::Dictionary(cf)) = e.get_mut(b"CF") { if let Ok(Object::Dictionary(f)) = cf.get_mut(n) { f.set("Length", Object::Integer(v)); } } }); }
+                add(format!("CF.{}-CFM", String::from_utf8_lossy(n)), &|e, _| { if let Ok(Object::Dictionary(cf)) = e.get_mut(b"CF") { if let Ok(Object::Dictionary(f)) = cf.get_mut(n) { f.remove(b"CFM"); } } });
+                add(format!("CF.{}:int", String::from_utf8_lossy(n)), &|e, _| { if let Ok(Object::Dictionary(cf)) = e.get_mut(b"CF") { cf.set(n.clone(), Object::Integer(1)); } });
+            }
+            add("CF={}".into(), &|e, _| e.set("CF", Object::Dictionary(Dictionary::new())));
+            add("ID-".into(), &|_, d| { d.trailer.remove(b"ID"); });
+            add("ID=[]".into(), &|_, d| d.trailer.set("ID", Object::Array(vec![])));
+            add("ID=[1 2]".into(), &|_, d| d.trailer.set("ID", Object::Array(vec![Object::Integer(1), Object::Integer(2)])));
+            add("ID=[<>]".into(), &|_, d| d.trailer.set("ID", Object::Array(vec![Object::String(vec![], StringFormat::Hexadecimal)])));
+            // ciphertexts cut to lengths around the IV / block size
+            let ids: Vec<_> = doc.objects.keys().cloned().collect();
+            for l in lens { add(format!("cipher.len={}", l), &|_, d| { for id in &ids { if Some(*id) == enc_id { continue; } match d.objects.get_mut(id) {
+                Some(Object::String(b, _)) => b.resize(l, 0xa5), Some(Object::Stream(st)) => { st.content.resize(l, 0xa5); st.dict.set("Length", Object::Integer(l as i64)); } _ => {} } } }); }
+            // Length x V x R in full on the first RC4 and the first AES base
+            if vi == 1 || vi == 3 || vi == 6 { for l in ints { for v in 0..=6i64 { for rv in 0..=7i64 {
+                add(format!("L{}V{}R{}", l, v, rv), &|e, _| { e.set("Length", Object::Integer(l)); e.set("V", Object::Integer(v)); e.set("R", Object::Integer(rv)); });
+            } } } }
+            for (name, mut d) in variants {
+                k += 1;
+                if c.quick() && name.starts_with('L') && name.contains('V') && name.contains('R') && !name.contains('=') && k % 4 != 0 { continue; }
+                let Some(_r) = c.case("encdict", k) else { continue };
+                let mut out = vec![];
+                if d.save_to(&mut out).is_err() { c.count("encdict.save_failed"); continue }
+                let is_product = name.starts_with('L') && name.contains('V') && name.contains('R') && !name.contains('=');
+                c.count(&format!("encdict.{}", if is_product { "LxVxR" } else { name.split(|ch: char| ch == '=' || ch == '.').next().unwrap_or("") }));
+                cases.push(("encdict".into(), format!("L {}", hex_tok(&out)), c.cur));
+            }
+        }
+    }
     // fixed regression witnesses (repaired defects); reported through c.witness below
     let witnesses: Vec<(&str, String, &str)> = vec![
         ("F-C04-a", format!("F ASCII85Decode ; {}", hex_tok(b"s8W-\"~>")), "ASCII85 group value overflow"),
